@@ -3,6 +3,7 @@
 -/
 import ASV.Proofs.HitFilterEquiv
 import ASV.Proofs.HitFilterMultiple
+import ASV.Proofs.RefineCover
 import ASV.Model.HitCallers
 namespace ASV.HitCallers
 open ASV.Refine ASV.HitFilter
@@ -241,6 +242,31 @@ theorem subtypeHits_overlap (env : Env) (strip : Int → Int) (raw : List Hit) (
   simp only [subtypeHits, List.mem_map, List.mem_filter] at hs
   obtain ⟨h, ⟨hh, ho⟩, rfl⟩ := hs
   exact ⟨by simpa [overlapsWith] using ho, h, hh, rfl⟩
+
+/-! ### neighbour mode in the callers: complete uncontested raw hits come back -/
+
+theorem findDomainsGene_keeps (env : Env) (L : Int) (raw : List Hit) (x : Hit) (hx : x ∈ raw)
+    (hcx : complete env x = true) (hnd : env.dock x.prof = false)
+    (hun : ∀ k ∈ raw, k ≠ x → x.sc ≤ k.sc → collide env k x = false) :
+    ∃ m ∈ findDomainsGene env L raw, Covers m x := by
+  obtain ⟨m, hm, hc⟩ := refine_neighbour_keeps env raw x hx hcx hun
+  refine ⟨m, ?_, hc⟩
+  simp only [findDomainsGene, dockingFilter, List.mem_filter]
+  refine ⟨hm, ?_⟩
+  simp [dockKeep, hc.prof, hnd]
+
+theorem subtypeHits_keeps (env : Env) (strip : Int → Int) (raw : List Hit) (d x : Hit) (hx : x ∈ raw)
+    (hcx : complete env x = true) (hov : overlapsWith x d = true)
+    (hun : ∀ k ∈ raw, k ≠ x → x.sc ≤ k.sc → collide env k x = false) :
+    ∃ m, Covers m x ∧ ({ m with prof := strip m.prof } : Hit) ∈ subtypeHits env strip raw d := by
+  obtain ⟨m, hm, hc⟩ := refine_neighbour_keeps env raw x hx hcx hun
+  refine ⟨m, hc, ?_⟩
+  simp only [subtypeHits, List.mem_map, List.mem_filter]
+  refine ⟨m, ⟨hm, ?_⟩, rfl⟩
+  simp only [overlapsWith, Bool.and_eq_true, decide_eq_true_eq] at hov ⊢
+  have h1 := hc.lo
+  have h2 := hc.hi
+  omega
 
 /-! ### the whole record: `gather_by_query` + the gene loop -/
 
